@@ -153,6 +153,16 @@ def idempotence(ctx: Ctx):
                     vals = [u(x) for x in res(n.value)]
                     store_ok = any(v.startswith("[0] * len(") and SUMC.search(v) for v in vals)
                     if not store_ok:
+                        # the stored list is built by a LOCAL helper (`augmented(counts)`): the list it fills and returns is
+                        # created as [0] * <something that resolves to len(summary counts)>
+                        for fn in (x for x in ast.walk(m.node) if isinstance(x, ast.FunctionDef) and x is not m.node):
+                            if not any(v.startswith(fn.name + "(") for v in vals):
+                                continue
+                            for a_ in ast.walk(fn):
+                                if isinstance(a_, ast.Assign) and isinstance(a_.value, ast.BinOp) and isinstance(a_.value.op, ast.Mult) and u(a_.value.left) == "[0]":
+                                    if any(u(x).startswith("len(") and SUMC.search(u(x)) for x in res(a_.value.right)):
+                                        store_ok = True
+                    if not store_ok:
                         ctx.undecided("idempotence.augment", where + " [counts store]", vals[:2], "[0] * len(<summary counts>)")
     if guard_ok and store_ok:
         ctx.held("idempotence.augment", where, "guard len(cube counts) != len(summary counts); the edit stores counts of the summary's length", "after the edit the guard is false on any later call")
